@@ -198,9 +198,11 @@ def recursive(ctx):
 
 
 def watcher_ctor_fn(ctx):
-    """the local fn returning Result<Option<TargetWatcher>> (the watcher constructor role)"""
-    out = [b for b in ctx.f.user_bodies() if re.search(r"Result<std::option::Option<[\w:]*TargetWatcher>", b.ret) and b.kind in ("Fn", "AssocFn")]
-    ctx.need(out, "watcher constructor (-> Result<Option<TargetWatcher>>)")
+    """the watcher constructor: the innermost local fn returning Result<Option<TargetWatcher>> whose view constructs a TargetWatcher"""
+    r = ctx.r
+    cands = [b for b in ctx.f.user_bodies() if re.search(r"Result<std::option::Option<[\w:]*TargetWatcher>", b.ret) and b.kind in ("Fn", "AssocFn") and list(r.V(b).aggregates("TargetWatcher"))]
+    out = [r.V(b) for b in r.minimal(cands)]
+    ctx.need(out, "watcher constructor (-> Result<Option<TargetWatcher>>, builds a TargetWatcher)")
     return out
 
 
@@ -306,12 +308,10 @@ def closure_only(ctx):
     tgt_upvars = {nm for nm, at in by_name.items() if atom_callres(at) & entry_names}
     ctx.check(bool(tgt_upvars), "main/targets-from-resolver", [site(m, cap[0])], "no captured variable of main's async block derives from the resolver result")
     # uses in the async block: TargetActors::new, state delete loop, output clean loop must read those upvars
-    def upv(at):
-        return {a[2] for a in at if a[0] == "field" and a[1].startswith("{env of")}
     ctor = [(bb, t) for bb, t in ma.calls() if callee_base(t).endswith("TargetActors::new") or re.search(r"TargetActors$", f.bodies[callee_base(t)].ret if callee_base(t) in f.bodies else "")]
     ctx.need(ctor, "construction of TargetActors in main")
     for bb, t in ctor:
-        ups = upv(ma.prov.operand_atoms(t["args"][0]))
+        ups = r.root_env_fields(ma, t["args"][0])
         ctx.check(bool(ups) and ups <= tgt_upvars, "main/engine-gets-closure", [site(ma, bb)], f"the engine is given {sorted(ups)} which does not derive from the resolver's result")
     from rules_incr import state_delete_fns
     dels, _ = state_delete_fns(ctx)
@@ -319,7 +319,7 @@ def closure_only(ctx):
     for bb, t in ma.calls():
         cn = callee_base(t)
         if cn in dels or cn in cleaners:
-            ups = upv(ma.prov.operand_atoms(t["args"][0]))
+            ups = r.root_env_fields(ma, t["args"][0])
             ctx.check(bool(ups) and ups <= tgt_upvars, f"main/{short(cn)}", [site(ma, bb)], f"`{short(cn)}` is applied to {sorted(ups)}, not to the resolver's result: targets outside the requested closure would be touched")
     # actor creation: every site creating an actor's run future, seen in its root view
     for (L, bb, t) in r.launch_sites():
